@@ -358,7 +358,7 @@ def gen_cases(cx, rng):
 
     idx = 0
     # 1. random schemas and trees, every with-defaults mode
-    for _ in range(cx.n(40, 400)):
+    for _ in range(cx.n(32, 400)):
         idx += 1
         rev = rng.choice([None, None, b"2019-02-28", b"2000-01-01", b"2127-12-31"])
         s = gen_schema(rng, idx, depth=rng.choice([2, 3, 4]))
@@ -443,7 +443,7 @@ def gen_cases(cx, rng):
         nums = [tg.DN(ll, str(2**64 - 1 - i).encode()) for i in range(rng.choice([0, 3, cx.n(50, size_max // 13 + 2)]))]
         add(s, [tg.DN(s.top[0], None, rows + nums), tg.DN(s.top[1], b"true")], "explicit", "chunk-population", None, n=n)
     # 4d. metadata: annotations of the module itself, every type, on any node
-    for _ in range(cx.n(10, 100)):
+    for _ in range(cx.n(8, 100)):
         idx += 1
         rev = rng.choice([None, b"2021-11-30"])
         s = gen_schema(rng, idx, depth=rng.choice([2, 3]))
@@ -451,7 +451,7 @@ def gen_cases(cx, rng):
         g = Gen(rng, s, density=0.9, max_inst=3)
         add(s, flag_tree(rng, g.tree()), rng.choice(WDS), "meta", rev)
     # 4e. single-tree mode: lyd_print_tree without LYD_PRINT_WITHSIBLINGS (one top-level tree; one instance of a top-level list / leaf-list)
-    for _ in range(cx.n(12, 120)):
+    for _ in range(cx.n(8, 120)):
         idx += 1
         s = gen_schema(rng, idx, depth=rng.choice([2, 3]))
         g = Gen(rng, s, density=1.0, max_inst=4)
@@ -549,6 +549,9 @@ def run_lybtree(cx):
         c.update({k: v for k, v in meta.items() if k in ("f27", "size", "depth", "n", "nsib")})
         if r[:2] == ["err", "Crash"]:
             cx.count(key, True, "lybtree:%s:crash" % meta["kind"])
+            continue
+        if r[:2] == ["err", "Schema"]:
+            cx.count(key, False, "lybtree:generated-schema-rejected")       # generator produced an invalid module (name clash): not a case
             continue
         if r[0] != "ok":
             cx.count(key, True, "lybtree:%s:%s" % (meta["kind"], " ".join(r[:2])))
